@@ -9,9 +9,10 @@ T = pg.typing
 MISSING = pg.MISSING_VALUE
 
 TIERS = {
-    'quick': dict(shards=8, cases=160, pool_min=20, pool_max=30, hist_values=3, hist_steps=6),
+    'quick': dict(shards=8, cases=160, pool_min=20, pool_max=30, hist_values=2, hist_steps=6,
+                  hist_row=10),
     'thorough': dict(shards=16, cases=1200, pool_min=20, pool_max=30, hist_values=4,
-                     hist_steps=10),
+                     hist_steps=10, hist_row=30),
 }
 RULE = ('case = one pool of 20-30 values built to collide: a small palette of atoms '
         '(numbers equal across bool/int/float, strings, None, MISSING_VALUE), tuples of '
@@ -36,7 +37,7 @@ RULE = ('case = one pool of 20-30 values built to collide: a small palette of at
         'freshly built from the description (eq both ways, ne, lt both ways, gt, pg.hash, '
         '==/!=/hash() for opt-in classes); the queries of one step populate the memos for the '
         'next (all nodes or a random subset). At the end the rows eq/lt(live, other) and '
-        'eq/lt(twin, other) against all other pool members must coincide.')
+        'eq/lt(twin, other) against a sample of the other pool members must coincide.')
 REQUIRED_COUNTERS = ['pools', 'eq_calls', 'lt_calls', 'hash_calls', 'pairs_eq_true_nonidentical',
                      'trichotomy_checks', 'hash_agreement_checks', 'operator_checks',
                      'triples_eq_premise', 'triples_lt_premise', 'sort_runs', 'sorted_order_checks',
@@ -509,6 +510,402 @@ def as_symbolic(v):
 
 
 # ---------------------------------------------------------------------------
+# Histories: pool members mutated in place through the public write paths.
+
+def sites(d, path=(), sym_from=None):
+  """[(path, node description, depth of the first symbolic node on the path)] of
+  every container node of a description. Plain containers below a symbolic node
+  are converted to symbolic ones on construction / insertion, so everything
+  below the first 'L'/'D'/'O' is a symbolic node."""
+  k = d[0]
+  if k not in 'lLdDO':
+    return []
+  if sym_from is None and k in 'LDO':
+    sym_from = len(path)
+  out = [(list(path), d, sym_from)]
+  if k in 'lL':
+    kids = list(enumerate(d[1]))
+  elif k in 'dD':
+    kids = [(kk, x) for kk, x in d[1]]
+  else:
+    kids = [(f, x) for f, x in d[2]]
+  for kk, x in kids:
+    out.extend(sites(x, tuple(path) + (kk,), sym_from))
+  return out
+
+
+def navigate(v, path):
+  for k in path:
+    v = v.sym_getattr(k) if isinstance(v, pg.Symbolic) else v[k]
+  return v
+
+
+def size_of(d):
+  k = d[0]
+  if k in 'lL':
+    return 1 + sum(size_of(x) for x in d[1])
+  if k in 'dD':
+    return 1 + sum(size_of(x) for _, x in d[1])
+  if k == 'O':
+    return 1 + sum(size_of(x) for _, x in d[2])
+  return 1
+
+
+HIST_MODES = ['notify', 'notify_off', 'skip_notification', 'notify_parents=False']
+
+
+def _dset(items, key, vd):
+  for e in items:
+    if e[0] == key and type(e[0]) is type(key):
+      e[1] = vd
+      return
+  items.append([key, vd])
+
+
+def _ddel(items, key):
+  items[:] = [e for e in items if not (e[0] == key and type(e[0]) is type(key))]
+
+
+def gen_hist_step(rng, pal, root_desc):
+  """One write applicable to the value described by `root_desc`.
+
+  Returns None or a dict: name, family, mode, shown, model() (edits the
+  description in place), live(root value) (issues the call)."""
+  cands = [s for s in sites(root_desc) if s[2] is not None]
+  if not cands:
+    return None
+  path, nd, sym_from = rng.choice(cands)
+  kind_ = {'l': 'List', 'L': 'List', 'd': 'Dict', 'D': 'Dict', 'O': 'Object'}[nd[0]]
+  big = size_of(root_desc) > 40
+
+  def val():
+    return gen(rng, pal, 0 if big else rng.choice([0, 0, 1, 1, 2]), False)
+
+  ops = []          # (name, family, shown args, model fn, live fn(node, **rebind opts))
+
+  def add(name, family, shown, model, live):
+    ops.append((name, family, shown, model, live))
+
+  def add_rebind(name, key, value_desc, model):
+    """A rebind of `key` of the chosen node, issued on the node itself or on one
+    of its symbolic ancestors with the relative path as key."""
+    j = rng.randint(sym_from, len(path))
+    rel = list(path[j:]) + [key]
+    api = rng.choice(['rebind', 'rebind', 'sym_rebind'])
+    if value_desc == 'MISSING':
+      mk = lambda: MISSING
+      sv = 'MISSING_VALUE'
+    elif value_desc[0] == 'ins':
+      mk = lambda: pg.Insertion(build(value_desc[1]))
+      sv = f'Insertion({show(value_desc[1])})'
+    else:
+      mk = lambda: build(value_desc)
+      sv = show(value_desc)
+    raw = len(rel) == 1 and rng.random() < 0.6
+
+    def live(root, **opts):
+      anchor = navigate(root, path[:j])
+      key_ = rel[0] if raw else pg.KeyPath(list(rel))
+      getattr(anchor, api)({key_: mk()}, raise_on_no_change=False, **opts)
+
+    add(name, 'rebind', f'{api} at {list(path[:j])} of {rel} := {sv}', model,
+        lambda root, **opts: live(root, **opts))
+
+  def on_node(fn):
+    return lambda root, **opts: fn(navigate(root, path))
+
+  if kind_ == 'Object':
+    items = nd[2]
+    f = rng.choice(FIELDS[nd[1]])
+    vd = val()
+    add_rebind('Object.rebind', f, vd, lambda: _dset(items, f, vd))
+    if any(e[0] == f for e in items):
+      add_rebind('Object.rebind[reset]', f, 'MISSING', lambda: _ddel(items, f))
+
+    def setattr_(n):
+      with pg.allow_writable_accessors(True):
+        setattr(n, f, build(vd))
+    add('Object.__setattr__', 'accessor', f'{f} := {show(vd)}',
+        lambda: _dset(items, f, vd), on_node(setattr_))
+  elif kind_ == 'List':
+    items = nd[1]
+    n_ = len(items)
+    vd = val()
+    vds = [val() for _ in range(rng.randint(0, 2))]
+    i_ins = rng.randint(0, n_)
+    add('List.append', 'mutator', show(vd), lambda: items.append(vd),
+        on_node(lambda n: n.append(build(vd))))
+    add('List.insert', 'mutator', f'{i_ins}, {show(vd)}', lambda: items.insert(i_ins, vd),
+        on_node(lambda n: n.insert(i_ins, build(vd))))
+    add('List.extend', 'mutator', '[' + ', '.join(show(x) for x in vds) + ']',
+        lambda: items.extend(vds), on_node(lambda n: n.extend([build(x) for x in vds])))
+
+    def iadd(n):
+      n += [build(x) for x in vds]
+    add('List.__iadd__', 'mutator', '[' + ', '.join(show(x) for x in vds) + ']',
+        lambda: items.extend(vds), on_node(iadd))
+    if n_:
+      i = rng.randrange(n_)
+      neg = i - n_ if rng.random() < 0.3 else i
+
+      def setitem(n):
+        n[neg] = build(vd)
+
+      def delitem(n):
+        del n[neg]
+      add('List.__setitem__', 'accessor', f'[{neg}] := {show(vd)}',
+          lambda: items.__setitem__(i, vd), on_node(setitem))
+      add('List.__delitem__', 'accessor', f'[{neg}]', lambda: items.__delitem__(i),
+          on_node(delitem))
+      add('List.pop', 'mutator', f'{neg}', lambda: items.pop(i), on_node(lambda n: n.pop(neg)))
+      add('List.reverse', 'mutator', '', items.reverse, on_node(lambda n: n.reverse()))
+      add('List.clear', 'mutator', '', items.clear, on_node(lambda n: n.clear()))
+      add_rebind('List.rebind', i, vd, lambda: items.__setitem__(i, vd))
+      add_rebind('List.rebind[delete]', i, 'MISSING', lambda: items.__delitem__(i))
+      add_rebind('List.rebind[insert]', i, ['ins', vd], lambda: items.insert(i, vd))
+  else:
+    items = nd[1]
+    used = [e[0] for e in items]
+    free = [kk for kk in STR_KEYS + (INT_KEYS if pal.int_keys else []) if kk not in used]
+    vd = val()
+    key = rng.choice(used + free) if not used or not free else (
+        rng.choice(used) if rng.random() < 0.5 else rng.choice(free))
+
+    def setitem(n):
+      n[key] = build(vd)
+    add('Dict.__setitem__', 'accessor', f'[{key!r}] := {show(vd)}',
+        lambda: _dset(items, key, vd), on_node(setitem))
+    if isinstance(key, str):
+      add('Dict.__setattr__', 'accessor', f'{key} := {show(vd)}',
+          lambda: _dset(items, key, vd), on_node(lambda n: setattr(n, key, build(vd))))
+    add_rebind('Dict.rebind', key, vd, lambda: _dset(items, key, vd))
+    upd = [[key, vd]]
+    if free and rng.random() < 0.5:
+      k2 = rng.choice(free)
+      if k2 != key:
+        upd.append([k2, val()])
+
+    def model_update():
+      for kk, x in upd:
+        _dset(items, kk, x)
+    su = '{' + ', '.join(f'{kk!r}: {show(x)}' for kk, x in upd) + '}'
+    add('Dict.update', 'mutator', su, model_update,
+        on_node(lambda n: n.update({kk: build(x) for kk, x in upd})))
+
+    def ior(n):
+      n |= {kk: build(x) for kk, x in upd}
+    add('Dict.__ior__', 'mutator', su, model_update, on_node(ior))
+    if free:
+      kf = rng.choice(free)
+      add('Dict.setdefault', 'mutator', f'{kf!r}, {show(vd)}', lambda: _dset(items, kf, vd),
+          on_node(lambda n: n.setdefault(kf, build(vd))))
+    if used:
+      ku = rng.choice(used)
+
+      def delitem(n):
+        del n[ku]
+      add('Dict.__delitem__', 'accessor', f'[{ku!r}]', lambda: _ddel(items, ku),
+          on_node(delitem))
+      add('Dict.pop', 'mutator', f'{ku!r}', lambda: _ddel(items, ku),
+          on_node(lambda n: n.pop(ku)))
+      add('Dict.clear', 'mutator', '', items.clear, on_node(lambda n: n.clear()))
+      add_rebind('Dict.rebind[delete]', ku, 'MISSING', lambda: _ddel(items, ku))
+
+  # Growth is kept in check: large values get removals more often.
+  if big:
+    shrink = [o for o in ops if o[0].split('.')[1] in (
+        '__delitem__', 'pop', 'clear', 'rebind[delete]', 'rebind[reset]')]
+    if shrink and rng.random() < 0.7:
+      ops = shrink
+  fams = sorted({o[1] for o in ops})
+  fam = rng.choice(fams)                     # families first: rebind is not crowded out
+  name, family, shown, model, live = rng.choice([o for o in ops if o[1] == fam])
+  if rng.random() < 0.45:
+    mode = 'notify'
+  elif family == 'rebind':
+    mode = rng.choice(HIST_MODES[1:])
+  else:
+    mode = 'notify_off'
+  return {'name': name, 'family': family, 'mode': mode, 'model': model, 'live': live,
+          'shown': f'{name}({shown}) at {list(path)} [{mode}]'}
+
+
+def run_hist_step(step, root):
+  opts = {}
+  if step['mode'] == 'skip_notification':
+    opts['skip_notification'] = True
+  elif step['mode'] == 'notify_parents=False':
+    opts['notify_parents'] = False
+  with contextlib.ExitStack() as st:
+    if step['mode'] == 'notify_off':
+      st.enter_context(pg.notify_on_change(False))
+    step['live'](root, **opts)
+
+
+def uses_operators(v):
+  return isinstance(v, pg.Object) and type(v).use_symbolic_comparison
+
+
+def twin_laws(n, t, c, full=True):
+  """Law violations between a live value `n` and a freshly built value `t` of the
+  same content: [(clause, detail)]. full=False (sub-nodes, whose content the
+  queries on the root walk anyway): eq, lt in one direction each and the hashes."""
+  out = []
+  if full:
+    e1, e2 = call(pg.eq, n, t), call(pg.eq, t, n)
+    ne = call(pg.ne, n, t)
+    l1, l2 = call(pg.lt, n, t), call(pg.lt, t, n)
+    g = call(pg.gt, n, t)
+    c['eq_calls'] += 2
+    c['ne_calls'] += 1
+    c['lt_calls'] += 2
+    c['gt_calls'] += 1
+  else:
+    e1 = e2 = call(pg.eq, n, t)
+    l1 = call(pg.lt, n, t)
+    l2 = g = False
+    ne = (not e1) if isinstance(e1, bool) else False
+    c['eq_calls'] += 1
+    c['lt_calls'] += 1
+  c['history_twin_checks'] += 1
+  for name, r in (('eq', e1), ('eq', e2), ('ne', ne), ('lt', l1), ('lt', l2), ('gt', g)):
+    if isinstance(r, Raised):
+      out.append((f'{name}-raises', f'pg.{name} raised {r.text}'))
+      return out
+  if e1 != e2:
+    out.append(('eq-asymmetric', f'pg.eq(live, fresh)={e1} pg.eq(fresh, live)={e2}'))
+  elif e1 is not True:
+    out.append(('eq-twin-unequal', 'the value mutated in place is not pg.eq to a value '
+                'freshly built with the same content'))
+  if ne != (not e1):
+    out.append(('ne-not-negation-of-eq', f'pg.eq={e1} pg.ne={ne}'))
+  if e1 is True and (l1 or l2):
+    out.append(('lt-and-eq-both-true', f'lt(live, fresh)={l1} lt(fresh, live)={l2} eq=True'))
+  if g != l2:
+    out.append(('gt-not-swapped-lt', f'pg.gt(live, fresh)={g} pg.lt(fresh, live)={l2}'))
+  hn, ht = call(pg.hash, as_symbolic(n)), call(pg.hash, as_symbolic(t))
+  c['hash_calls'] += 2
+  if isinstance(hn, Raised) or isinstance(ht, Raised):
+    out.append(('hash-raises', f'pg.hash raised: live {hn!r} fresh {ht!r}'))
+  elif e1 is True:
+    c['history_hash_agreement_checks'] += 1
+    if hn != ht:
+      out.append(('eq-hash-differ', 'pg.eq(live, fresh) is True but pg.hash differs'))
+  if uses_operators(n):
+    oe = call(lambda x, y: x == y, n, t)
+    on = call(lambda x, y: x != y, n, t)
+    oh = call(hash, n)
+    c['operator_checks'] += 3
+    if isinstance(oe, Raised) or bool(oe) != e1:
+      out.append(('op-eq-disagrees', f'(live == fresh) gave {oe!r}, pg.eq={e1}'))
+    if isinstance(on, Raised) or bool(on) != (not e1):
+      out.append(('op-ne-disagrees', f'(live != fresh) gave {on!r}, pg.ne={not e1}'))
+    if e1 is True and not isinstance(ht, Raised) and (isinstance(oh, Raised) or oh != ht):
+      out.append(('op-hash-disagrees', f'hash(live)={oh!r}, pg.hash(fresh)={ht!r}'))
+  return out
+
+
+def run_histories(ctx, P, pal):
+  rng, c = ctx.rng, ctx.counters
+  members = [a for a in range(P.n) if any(s[2] is not None for s in sites(P.descs[a]))]
+  rng.shuffle(members)
+  for idx in members[:ctx.params.get('hist_values', 3)]:
+    desc = copy.deepcopy(P.descs[idx])
+    live = P.vals[idx]
+    trace = []
+    c['history_values'] += 1
+
+    def check(mech, subset):
+      """Compares the live value and its symbolic sub-nodes with a fresh twin;
+      returns (twin, found a violation)."""
+      ctx.label = 'build-twin'
+      twin = build(desc)
+      ctx.label = None
+      where = [([], None)] + [(p, sf) for p, _, sf in sites(desc) if sf is not None and p]
+      if subset:
+        where = [w for w in where if rng.random() < 0.5] or where[:1]
+      seen_clauses = set()
+      for p, _ in where:
+        ctx.label = 'navigate'
+        n, t = navigate(live, p), navigate(twin, p)
+        ctx.label = None
+        for clause, detail in twin_laws(n, t, c, full=not p):
+          if clause in seen_clauses:
+            continue
+          seen_clauses.add(clause)
+          ctx.violation(clause, mech, f'{detail}; node at {list(p)} of the value now '
+                        f'described by {show(desc)[:300]}',
+                        {'initial': P.shown[idx], 'history': trace[-8:],
+                         'content': show(desc), 'node': list(p)})
+      return twin, bool(seen_clauses)
+
+    check('history/initial', False)
+    n_steps = rng.randint(max(1, ctx.params.get('hist_steps', 6) // 2),
+                          ctx.params.get('hist_steps', 6))
+    mech = 'history/initial'
+    pending = []        # writes since the last round in which every node was compared
+    for s_i in range(n_steps):
+      step = gen_hist_step(rng, pal, desc)
+      if step is None:
+        break
+      step['model']()
+      trace.append(step['shown'])
+      # A round that compares a subset of the nodes can leave the effect of a write
+      # unobserved: a later finding is attributed to the first write without
+      # notification among the writes not yet fully checked, else to the last write.
+      pending.append(f'history/{step["family"]}@{step["mode"]}')
+      mech = ([m for m in pending if not m.endswith('@notify')] or pending[-1:])[0]
+      ctx.label = f'history/{step["name"]}'
+      run_hist_step(step, live)
+      ctx.label = None
+      c['history_steps'] += 1
+      c['history_mode:' + step['mode']] += 1
+      c['history_op:' + step['name']] += 1
+      if step['mode'] != 'notify':
+        c['history_silent_steps'] += 1
+      ctx.seen('history_ops', (step['name'], step['mode']))
+      subset = s_i < n_steps - 1 and rng.random() < 0.4
+      twin, violated = check(mech, subset)
+      if violated:
+        live = twin                       # heal: continue from a fresh value
+      if violated or not subset:
+        pending = []
+    # the row of the mutated value against the rest of the pool
+    ctx.label = 'build-twin'
+    twin = build(desc)
+    ctx.label = None
+    done = set()
+    others = [o for o in range(P.n) if o != idx]
+    rng.shuffle(others)
+    for o in others[:ctx.params.get('hist_row', 10)]:
+      other = P.vals[o]
+      for name, fn, x, y, clause in (
+          ('eq', pg.eq, live, other, 'eq-intransitive'),
+          ('eq', pg.eq, other, live, 'eq-intransitive'),
+          ('lt', pg.lt, live, other, 'lt-eq-incongruent'),
+          ('lt', pg.lt, other, live, 'lt-eq-incongruent')):
+        r1 = call(fn, x, y)
+        r2 = call(fn, twin if x is live else x, twin if y is live else y)
+        c[name + '_calls'] += 2
+        if isinstance(r1, bool) and isinstance(r2, bool):
+          c['history_row_checks'] += 1
+          if r1 != r2 and clause not in done:
+            done.add(clause)
+            ctx.violation(clause, mech, f'live and fresh are pg.eq but pg.{name} against '
+                          f'{P.shown[o][:200]} gives {r1} for the live value and {r2} for the '
+                          f'fresh one (live first: {x is live})',
+                          {'initial': P.shown[idx], 'history': trace[-8:],
+                           'content': show(desc), 'other': P.shown[o]})
+    P.vals[idx] = twin
+    if i_sample(ctx):
+      ctx.notes.setdefault('history_sample', trace[:6])
+
+
+def i_sample(ctx):
+  return ctx.index < 2
+
+
+# ---------------------------------------------------------------------------
 
 def cases(ctx):
   return ctx.params['cases']
@@ -789,6 +1186,9 @@ def run_case(ctx, i):
     c['pools_with_pair_violation'] += 1
   if (n >= 20 and len(set(K)) >= 5 and collide and max(depth_of(d) for d in descs) >= 2):
     ctx.mark_nontrivial(SH)
+  # -- histories -------------------------------------------------------------------------
+  run_histories(ctx, P, pal)
+
   if i < 2:
     ctx.sample({'pool': SH,
                 'eq_pairs': sum(1 for a in range(n) for b in range(a + 1, n) if EQ[a][b]),
